@@ -29,6 +29,8 @@ func (g *vfGen) runMore11(slice string) bool {
 // raceStress: concurrent use of the whole public API (run from a -race build).  Prints
 // one protocol line: `race <params> => <violations>`; data races are reported by the
 // race detector on stderr and through the exit status.
+var vfSharedAliases = []string{"Application/X-Verif-Shared; v=1", "APPLICATION/X-VERIF-SHARED-TWO", " application/x-verif-shared-3 "}
+
 func (g *vfGen) raceStress() {
 	secs := 4
 	if g.thorough {
@@ -137,6 +139,12 @@ func (g *vfGen) raceStress() {
 				al := make([]string, 1, []int{1, 2, 8}[rng.Intn(3)])
 				al[0] = fmt.Sprintf("application/x-verif-race-alias-%d", k)
 				name := fmt.Sprintf("application/x-verif-race-%d", k)
+				if rng.Intn(3) == 0 {
+					// one alias slice, owned by the caller, handed to many concurrent Extend calls (and read by
+					// the caller meanwhile); its names are not in canonical form
+					al = vfSharedAliases
+					_ = len(vfSharedAliases[0]) + len(vfSharedAliases[1])
+				}
 				if rng.Intn(2) == 0 {
 					Extend(det, name, ".vr", al...)
 					registered.Store(name, true)
